@@ -523,6 +523,25 @@ def config_written_rule(rep):
         while p_ is not None and f.stmts[p_]["k"] in ("ImplicitCastExpr", "ParenExpr", "MaterializeTemporaryExpr", "CXXBindTemporaryExpr"):
             x, p_ = p_, pm.get(p_)
         return x, p_
+    def param_mutated(g, k):
+        if k >= len(g.params):
+            return False
+        did, gpm = g.params[k].get("declId"), g.parent_map()
+        for y, yn in g.stmts.items():
+            if yn["k"] == "DeclRefExpr" and yn.get("declId") == did:
+                y2, q = up(g, gpm, y)
+                qn = g.stmts.get(q) if q is not None else None
+                if qn is None:
+                    continue
+                if qn["k"] == "MemberExpr" and qn.get("declKind") == "CXXMethod" and qn.get("member") in MUTATORS:
+                    return True
+                if qn["k"] in ("BinaryOperator", "CompoundAssignOperator"):
+                    bo = g.binop(q)
+                    if bo and bo[0].endswith("=") and bo[0] not in ("==", "!=", "<=", ">=") and g.strip(bo[1]) == g.strip(y2):
+                        return True
+                if qn["k"] == "CXXOperatorCallExpr" and re.search(r"operator[-+*/|&]?=$", qn.get("callee") or "") and (qn.get("args") or [None])[0] in (y, y2):
+                    return True
+        return False
     consumed, written = {}, {}
     for f in funcs:
         if f.body is None:
@@ -544,6 +563,14 @@ def config_written_rule(rep):
             w = False
             if pn["k"] == "MemberExpr" and pn.get("declKind") == "CXXMethod" and pn.get("member") in MUTATORS:
                 w = True
+            elif pn["k"] in ("CallExpr", "CXXMemberCallExpr") and (x in (pn.get("args") or []) or s_ in (pn.get("args") or [])):
+                # handed to a non-const reference parameter: written when the callee (a function of the launcher) mutates that parameter
+                args = pn.get("args") or []
+                k = args.index(x) if x in args else args.index(s_)
+                pts = pn.get("calleeParamTypes") or []
+                if k < len(pts) and pts[k].rstrip().endswith("&") and not pts[k].startswith("const "):
+                    cal = [g for g in funcs if g.id == pn.get("calleeId") and g.body is not None]
+                    w = (not cal) or param_mutated(cal[0], k)
             elif pn["k"] in ("BinaryOperator", "CompoundAssignOperator"):
                 bo = f.binop(p_)
                 w = bool(bo) and bo[0] in ("=", "+=", "-=", "*=", "/=", "|=", "&=") and f.strip(bo[1]) == f.strip(x)
